@@ -35,7 +35,8 @@ func init() {
 }
 
 type TUInput struct {
-	Gen       string `json:"gen"` // file | dir | dir-named | dir-custom | gendir | gendirfrom | build | wrap
+	TapeLimit int    `json:"tape_limit,omitempty"` // bytes the random source delivers before EOF (gen file-short)
+	Gen       string `json:"gen"`                  // file | dir | dir-named | dir-custom | gendir | gendirfrom | build | wrap
 	Seed      uint64 `json:"seed"`
 	Size      int    `json:"size"`
 	Bitwidth  int    `json:"bitwidth,omitempty"`
@@ -186,6 +187,9 @@ func runTUInput(rep *Report, in TUInput, cf *CaseFile) {
 			switch in.Gen {
 			case "file":
 				de, err = testutil.UnixFSFile(*ls, in.Size, testutil.WithRandReader(rr), testutil.WithChunker("size-256"))
+			case "file-short":
+				// a random source that runs dry before the requested size: the description is of what was stored
+				de, err = testutil.UnixFSFile(*ls, in.Size, testutil.WithRandReader(io.LimitReader(rr, int64(in.TapeLimit))), testutil.WithChunker("size-256"))
 			case "dir":
 				pathDiscipline = true
 				de, err = testutil.UnixFSDirectory(*ls, in.Size, testutil.WithRandReader(rr), testutil.WithShardBitwidth(in.Bitwidth), testutil.WithChunker("size-1024"))
@@ -410,6 +414,18 @@ func scnTestutil(rep *Report, rng *Rng, tier string, outdir string) {
 		if j%4 == 0 {
 			add(TUInput{Gen: "gendirfrom", Seed: seed, Size: 16384, Dirname: dn, Sharded: j%8 == 0})
 		}
+	}
+	// start directories that are not clean absolute paths
+	for j, dn := range []string{"fixtures", "fixtures/nested", "/trailing/", "./rel", "a//b"} {
+		for v := 0; v < 3; v++ {
+			seed := rng.Next() % 100000
+			add(TUInput{Gen: "dir-named", Seed: seed, Size: []int{600, 2048, 5000}[v], Dirname: dn, Bitwidth: []int{0, 4}[(j+v)%2]})
+			add(TUInput{Gen: "gendirfrom", Seed: seed, Size: []int{600, 2048, 16384}[v], Dirname: dn, Sharded: (j+v)%2 == 0})
+		}
+	}
+	// random sources that end early
+	for _, sl := range [][2]int{{1000, 300}, {64, 0}, {5000, 700}, {300, 299}, {256, 256}, {700, 256}, {1, 0}} {
+		add(TUInput{Gen: "file-short", Seed: rng.Next() % 100000, Size: sl[0], TapeLimit: sl[1]})
 	}
 	for j, wp := range []string{"", "/", "//", "/want1//want0", "a//b/", "/a/b/", "a", "/..", "/./x"} {
 		seed := rng.Next() % 100000
